@@ -19,9 +19,14 @@ Legs (all execute the real solvers through `eq.solve(..., tracker=None)`):
   malformed : noise arrays that cannot be broadcast, unknown interpretation, implicit solver with the
               realization interface, adaptive stepping: an error is expected.
 Monitors on the real code for every case: (1) an independent numpy re-statement of the documented update
-applied step by step with the twin's draws, (2) two runs with the same seed are bit-identical, (3) the
-equation's generator ends in the state of the twin after exactly n draws, (4) entries with vanishing
-variance follow the deterministic run exactly."""
+applied step by step with the twin's draws (semi-implicit solver: the fixed point of
+`x = u + sqrt(var*dt/V)*xi + dt*rate(x)` for tight `maxerror`, the documented iteration with the documented
+stopping rule otherwise - every converged case is judged; a ConvergenceError must be matched by the documented
+iteration not converging), (2) two runs with the same seed are bit-identical, (3) the equation's generator ends
+in the state of the twin after exactly n draws, (4) entries with vanishing variance follow the deterministic run
+exactly, (5) step count, (6) a valid case never raises.  Comparisons are written so that a non-finite value
+counts as a difference.  Every case carries its execution mode (`jit` flag: compiled, otherwise numba source
+semantics under NUMBA_DISABLE_JIT=1); `replay` re-runs the recorded case in a fresh interpreter in that mode."""
 import math
 
 import numpy as np
@@ -40,6 +45,7 @@ REQUIRED_THEOREMS = [
     "semi_implicit_ignores_interpretation", "hasDrift_iff_alpha_ne_zero",
     "sys_euler_step_formula", "sys_milstein_step_formula", "milstein_term_is_textbook_ring",
     "milstein_eq_em_plus_correction", "stratonovich_drift_milstein", "variance_layout_per_field_full",
+    "run_uses_successive_draws", "run_euler_documented", "run_milstein_documented", "run_implicit_documented",
 ]
 RULE = ("seed-derived (grid of any class incl. polar/spherical/cylindrical with non-uniform cell volumes, field type "
         "scalar/vector/tensor/collection, rate, variance kind scalar/per-component/per-field/field-dependent, "
@@ -51,7 +57,13 @@ ASSUMPTIONS = [
     "the numpy Generator itself is external: the twin generator is the same numpy code seeded identically",
     "numba backend: exact replay relies on numba's generator reproducing numpy's legacy stream (self-tested per run; "
     "statistical bounds otherwise)",
-    "the semi-implicit solver does not read noise_interpretation (observation, modelled as is)",
+    "reading of C13's parenthesis for the semi-implicit solver: 'the same increment' is the noise increment "
+    "sqrt(variance*dt/cell volume)*xi added to the state the fixed-point iteration starts from; the drift of the "
+    "Stratonovich/anti-Ito interpretations is claimed for the explicit solvers only.  The real semi-implicit solver "
+    "never reads noise_interpretation (it integrates the Ito equation whatever was requested): modelled and monitored "
+    "as it is, reported as an observation (notes/C13.md), NOT judged as a violation under this reading",
+    "a semi-implicit run with a loose maxerror is judged against the documented iteration with the documented stopping "
+    "rule (mean squared change < maxerror**2, maxiter), not against the exact fixed point",
 ]
 TRUSTED_EXTRA = ["numpy.random.Generator / RandomState (external)", "IEEE double arithmetic and sqrt of Lean's Float equal numpy's"]
 
@@ -316,13 +328,19 @@ def expected_variance(case, grid, u):
     return v, 0 * ones
 
 
-def py_replay(case, grid, rate_fn, u0, xis, steps):
-    """the property statement applied step by step (numpy, independent of the Lean model)"""
+def py_replay(case, grid, rate_fn, u0, xis, steps, stop_rule=False):
+    """the property statement applied step by step (numpy, independent of the Lean model).
+    Semi-implicit solver: the state it iterates from is `u + sqrt(var*dt/V)*xi`; `stop_rule=False` iterates
+    `x = base + dt*rate(x)` to the fixed point (round-off), `stop_rule=True` stops like the documented solver
+    (`maxiter`, mean squared change of one iteration below `maxerror**2`), so that runs with a loose
+    `maxerror` can be judged at round-off as well."""
     alpha = ALPHA[case["interp"]]
     dt = case["dt"]
     vol = grid.cell_volumes
     solver = case["solver"]
     real = case["eq"].get("real")
+    maxerror2 = case.get("maxerror", 1e-4) ** 2
+    maxiter = case.get("maxiter", 100)
     u = u0.copy()
     for k in range(steps):
         xi = xis[k]
@@ -332,6 +350,17 @@ def py_replay(case, grid, rate_fn, u0, xis, steps):
         if solver == "implicit":
             base = u + incr
             x = base + dt * rate
+            if stop_rule:
+                for _ in range(maxiter):
+                    xn = base + dt * rate_fn(x, (k + 1) * dt)
+                    err = float(np.mean((xn - x) ** 2))
+                    x = xn
+                    if err < maxerror2:
+                        break
+                else:
+                    return None  # the documented iteration does not converge within maxiter
+                u = x
+                continue
             for _ in range(20000):
                 xn = base + dt * rate_fn(x, (k + 1) * dt)
                 if np.abs(xn - x).max() <= 1e-15 * max(1.0, np.abs(xn).max()):
@@ -357,10 +386,12 @@ def close_arrays(a, b, rtol):
     if a.shape != b.shape:
         return False, float("inf")
     if not (np.all(np.isfinite(a)) and np.all(np.isfinite(b))):
-        return bool(np.array_equal(a, b, equal_nan=True)), float("nan")
+        # a non-finite entry is a difference, also when both sides have it at the same place (agreement on
+        # NaN proves nothing; cases whose documented trajectory is unstable are dropped before, see `unstable`)
+        return False, float("nan")
     scale = max(1.0, float(np.abs(a).max(initial=0.0)), float(np.abs(b).max(initial=0.0)))
     dev = float(np.abs(a - b).max(initial=0.0))
-    return dev <= rtol * scale, dev / scale
+    return bool(dev <= rtol * scale), dev / scale
 
 
 def real_case(case):
@@ -374,14 +405,31 @@ def real_case(case):
     out = {"monitor": [], "n_monitors": 0}
     total = sum(case.get("split") or [case["steps"]])
     legacy = case.get("backend", "numpy") == "numba"
+    jit_on = _jit_enabled()
+    out["exec"] = "jit" if jit_on else "source"
+    if bool(case.get("jit")) != jit_on:
+        # a case is only meaningful in the execution mode it was generated for (the numba backend draws from
+        # numpy's legacy global state in source mode and from numba's own generator when compiled)
+        raise RuntimeError(f"case is marked jit={bool(case.get('jit'))} but NUMBA_DISABLE_JIT gives jit={jit_on}")
 
     def fresh_rng():
         if legacy:
             np.random.seed(case["seed"])
-            if case.get("jit"):
+            if jit_on:
                 _numba_seed(case["seed"])
             return None, np.random.RandomState(case["seed"])
         return make_rng(case)
+
+    def fail(symptom, observed, expected):
+        out["monitor"].append({"symptom": symptom, "observed": observed, "expected": expected})
+
+    # the rate function of the equation, evaluated through its public numpy interface (monitors only)
+    eq_m = make_eq(case, None)
+    field_m = make_state(grid, case["field"], case["u0"])
+
+    def rate_fn(u, t):
+        field_m.data = u
+        return np.array(eq_m.evolution_rate(field_m, t).data, dtype=float)
 
     # --- the run that is compared with the model -------------------------------------------------
     record = [] if case["eq"]["family"] != "local" else None
@@ -390,11 +438,24 @@ def real_case(case):
         final, eq, done = solve_once(case, grid, rng, record=record)
     except Exception as e:  # noqa
         out["error"] = f"{type(e).__name__}: {e}"
-        if type(e).__name__ == "ConvergenceError":
-            shape = make_state(grid, case["field"], case["u0"]).data.shape
+        if type(e).__name__ == "ConvergenceError" and case["solver"] == "implicit":
+            shape = field_m.data.shape
             draw = (lambda: twin.randn(*shape)) if legacy else (lambda: twin.standard_normal(shape))
-            out.update(no_convergence=True, xi=[draw().ravel().tolist() for _ in range(total + 1)],
+            xs = [draw() for _ in range(total + 1)]
+            out.update(no_convergence=True, xi=[x.ravel().tolist() for x in xs],
                        vol=np.broadcast_to(grid.cell_volumes, grid.shape).ravel().tolist())
+            # monitor: the documented iteration (same state to iterate from, documented stopping rule) must
+            # fail to converge as well
+            out["n_monitors"] += 1
+            with np.errstate(all="ignore"):
+                exp = py_replay(case, grid, rate_fn, np.array(case["u0"], dtype=float).reshape(shape), xs, total,
+                                stop_rule=True)
+            if exp is not None and np.all(np.isfinite(exp)) and np.abs(exp).max() < 1e6:
+                fail("spurious-convergence-error", out["error"],
+                     {"the documented iteration converges within maxiter to": exp.ravel().tolist()[:12]})
+        else:
+            import traceback
+            out["traceback"] = traceback.format_exc()[-1200:]
         return out
     shape = final.shape
     if legacy:
@@ -421,9 +482,6 @@ def real_case(case):
         except Exception as e:  # noqa
             out["layout_error"] = f"{type(e).__name__}: {e}"
 
-    def fail(symptom, observed, expected):
-        out["monitor"].append({"symptom": symptom, "observed": observed, "expected": expected})
-
     # --- monitor: step count -----------------------------------------------------------------------
     out["n_monitors"] += 1
     if done != total:
@@ -439,7 +497,7 @@ def real_case(case):
 
     # --- monitor: same seed, same bits -------------------------------------------------------------
     light = bool(case.get("light"))  # compiled runs: every solve call costs seconds of compilation
-    if not light:
+    if not light or case.get("same_seed"):
         out["n_monitors"] += 1
         rng2, _ = fresh_rng()
         final2, _, _ = solve_once(case, grid, rng2)
@@ -447,33 +505,38 @@ def real_case(case):
             fail("same-seed-different-result", float(np.abs(final2 - final).max()), 0.0)
 
     # --- monitor: documented update, step by step ------------------------------------------------
-    eq_m = make_eq(case, None)
-    field_m = make_state(grid, case["field"], case["u0"])
-
-    def rate_fn(u, t):
-        field_m.data = u
-        return np.array(eq_m.evolution_rate(field_m, t).data, dtype=float)
-
+    # explicit solvers and semi-implicit runs with a tight `maxerror` (or a constant rate) are judged against the
+    # fixed point itself; semi-implicit runs with a loose `maxerror` against the documented iteration with the
+    # documented stopping rule (every converged case is judged, none is skipped)
     tight = case["solver"] != "implicit" or case.get("maxerror", 1e-4) <= 1e-11 or all(
         b == 0 and c == 0 for b, c in zip(case["eq"].get("b", [1]), case["eq"].get("c", [1])))
-    if tight:
-        out["n_monitors"] += 1
+    out["implicit_monitor"] = None if case["solver"] != "implicit" else ("fixed-point" if tight else "stop-rule")
+    tol = RTOL_MONITOR if case["solver"] != "implicit" else 1e-8
+
+    def documented(n):
         with np.errstate(all="ignore"):
-            exp = py_replay(case, grid, rate_fn, u0, xis, total)
-        ok, dev = close_arrays(exp, final, RTOL_MONITOR if case["solver"] != "implicit" else 1e-8)
-        if not (np.all(np.isfinite(exp)) and np.abs(exp).max() < 1e6):
-            # the documented update itself leaves the stability region: round-off is amplified without
-            # bound, nothing can be compared (the generator avoids this; counted in the evidence)
-            out["unstable"] = True
-        elif not ok:
-            # locate the first deviating step with single-step runs
+            return py_replay(case, grid, rate_fn, u0, xis, n, stop_rule=not tight)
+
+    out["n_monitors"] += 1
+    exp = documented(total)
+    if exp is None:
+        fail("documented-update", {"final": final.ravel().tolist()[:12]},
+             "the documented fixed-point iteration does not converge within maxiter (ConvergenceError expected)")
+    elif not (np.all(np.isfinite(exp)) and np.abs(exp).max() < 1e6):
+        # the documented update itself leaves the stability region: round-off is amplified without
+        # bound, nothing can be compared (the generator avoids this; counted in the evidence)
+        out["unstable"] = True
+    else:
+        ok, dev = close_arrays(exp, final, tol)
+        if not ok:
+            # locate the first deviating step with shorter runs
             first = None
             if not legacy and not light:
                 for n in range(1, total + 1):
                     r_n, _ = make_rng(case)
                     f_n, _, _ = solve_once(case, grid, r_n, steps=n)
-                    okn, _ = close_arrays(py_replay(case, grid, rate_fn, u0, xis, n), f_n, RTOL_MONITOR if case["solver"] != "implicit" else 1e-8)
-                    if not okn:
+                    e_n = documented(n)
+                    if e_n is None or not close_arrays(e_n, f_n, tol)[0]:
                         first = n
                         break
             fail("documented-update", {"relative_deviation": dev, "first_deviating_step": first,
@@ -506,6 +569,13 @@ def real_case(case):
 
 
 _SEEDER = []
+
+
+def _jit_enabled():
+    """is numba compiling in this interpreter (NUMBA_DISABLE_JIT unset or 0)?"""
+    import numba
+
+    return not bool(numba.config.DISABLE_JIT)
 
 
 def _numba_seed(seed):
@@ -880,6 +950,14 @@ def symptom_key(case, symptom):
     return {"solver": case["solver"], "backend": case.get("backend", "numpy"), "symptom": symptom}
 
 
+def _raised_in_repo(text):
+    """does the traceback text of a crashed worker end inside the code under test?"""
+    from harness.common import paths
+
+    frames = [l for l in text.splitlines() if l.lstrip().startswith("File ")]
+    return any((paths.REPO.rstrip("/") + "/pde/") in l for l in frames)
+
+
 def worker(job):
     kind, arg = job
     if kind == "case":
@@ -911,13 +989,25 @@ def judge(ctx, leg, case, res, resp, mode):
     nonzero = (nz["kind"] == "quad" and (any(nz["g0"]) or any(nz["g2"]))) or (nz["kind"] == "scalar" and nz["value"]) or \
               (nz["kind"] in ("per-component", "per-field", "dict", "raw"))
     if isinstance(res, str) or ("error" in res and not res.get("no_convergence")):
+        # the real code raised on a valid case: the property fails on this input (replayable)
+        if isinstance(res, str) and not _raised_in_repo(res):
+            from harness.common.lean import BrokenCheck
+            raise BrokenCheck("C13 worker failed outside the code under test:\n" + res[-1500:])
         ctx.count(case_key(case), nontrivial=False, leg=leg)
-        ctx.disagree(leg, case, "runs", res if isinstance(res, str) else res["error"], "real code raised on a valid case")
+        ctx.monitor_evals += 1
+        err = res[-600:] if isinstance(res, str) else res["error"]
+        ctx.monitor_fail(leg, case, {"raised": err, "traceback": None if isinstance(res, str) else res.get("traceback")},
+                         "a run without exception", f"{case['solver']}/{case.get('backend', 'numpy')}: raises",
+                         key=symptom_key(case, "raises"))
         return
     if res.get("no_convergence"):
         # ConvergenceError of the fixed-point iteration is a modelled outcome (`none`)
         ctx.count(case_key(case), nontrivial=False, leg=leg)
         ctx.hist("implicit", "no-convergence")
+        ctx.monitor_evals += res["n_monitors"]
+        for m in res["monitor"]:
+            ctx.monitor_fail(leg, case, m["observed"], m["expected"],
+                             f"{case['solver']}/{case.get('backend', 'numpy')}: {m['symptom']}", key=symptom_key(case, m["symptom"]))
         ctx.impl_traces += 1
         st, val = resp
         if st != "ok" or val["final"] is not None:
@@ -942,6 +1032,8 @@ def judge(ctx, leg, case, res, resp, mode):
     ctx.hist("equation", case["eq"]["family"] + (":realization" if case["eq"].get("real") is not None else ""))
     if case["solver"] == "implicit":
         ctx.hist("implicit", "converged:maxerror=%g" % case.get("maxerror", 1e-4))
+        ctx.hist("implicit-documented-update-judged-by", res.get("implicit_monitor"))
+    ctx.hist("execution", res.get("exec"))
     if res.get("zero_checked"):
         ctx.hist("zero-variance-entries-checked", "cases")
     if resp is None:
@@ -1005,17 +1097,20 @@ def run(ctx):
         c.update(rng_as="legacy", jit=True, light=True)
         c.pop("advance", None)
         nb_jit.append(c)
-    rec_jit = [dict(c, light=True) for c in rng.sample(recorded, min(len(recorded), ctx.budget(4, 48)))]
+    for c in nb_jit[: ctx.budget(3, 24)]:
+        c["same_seed"] = True  # compiled runs are expensive: the same-seed monitor runs on a part of them
+    rec_jit = [dict(c, light=True, jit=True) for c in rng.sample(recorded, min(len(recorded), ctx.budget(4, 48)))]
     malformed = [gen_malformed(rng) for _ in range(ctx.budget(40, 600))]
     sjobs = []
     for k in range(ctx.budget(6, 36)):
         cls = ["PolarSymGrid", "SphericalSymGrid", "CartesianGrid", "CylindricalSymGrid"][k % 4]
+        # N = 65536 cells: the 6-sigma window on the mean square is +-3.3 % (a 2 % error of the amplitude fails)
         if cls == "CylindricalSymGrid":
-            gd = {"cls": cls, "shape": [64, 64], "bounds": [[0.0, 16.0], [0.0, 32.0]], "periodic": [False, False]}
+            gd = {"cls": cls, "shape": [256, 256], "bounds": [[0.0, 64.0], [0.0, 128.0]], "periodic": [False, False]}
         elif cls == "CartesianGrid":
-            gd = {"cls": cls, "shape": [64, 64], "bounds": [[0.0, 16.0], [0.0, 48.0]], "periodic": [False, True]}
+            gd = {"cls": cls, "shape": [256, 256], "bounds": [[0.0, 64.0], [0.0, 192.0]], "periodic": [False, True]}
         else:
-            gd = {"cls": cls, "shape": [4096], "bounds": [[1.0, 33.0]], "periodic": [False]}
+            gd = {"cls": cls, "shape": [65536], "bounds": [[1.0, 513.0]], "periodic": [False]}
         sjobs.append((gd, ["euler", "milstein", "implicit"][k % 3], rng.choice(["ito", "stratonovich"]),
                       rng.choice([0.1, 0.5, 2.0]), rng.choice([0.01, 0.002, 0.05]), rng.choice([1, 4, 16]), rng.randint(0, 2 ** 31)))
 
@@ -1040,6 +1135,11 @@ def run(ctx):
     res_jit = box["jit"]
     selftest = res_jit[0]
     ctx.extra["numba_generator_reproduces_legacy_stream"] = selftest
+    if selftest is not True:
+        # depends on the installed numba only, never on the tree under test: without it the compiled leg could
+        # only be judged statistically, which is not what this check claims
+        from harness.common.lean import BrokenCheck
+        raise BrokenCheck(f"numba generator self-test failed ({str(selftest)[-300:]}): the compiled backend cannot be replayed exactly")
 
     batch = LeanBatch(ctx.workdir)
     pending = []
@@ -1054,12 +1154,8 @@ def run(ctx):
         for case in cases:
             r = res_jit[pos]
             pos += 1
-            if name == "numba-jit" and selftest is not True:
-                continue
             pending.append((name, case, r, mode))
     sres = res_jit[pos:]
-    if selftest is not True:
-        ctx.note("numba generator self-test failed: exact replay of the compiled backend skipped")
     idxs = []
     for name, case, res, mode in pending:
         idx = None
@@ -1087,10 +1183,13 @@ def run(ctx):
         ctx.count({"malformed": kind, **case_key(case)}, nontrivial=False, leg="malformed")
         ctx.hist("malformed", kind)
         ctx.monitor_evals += 1
-        got = r if isinstance(r, str) else r["error"]
+        if isinstance(r, str) and not _raised_in_repo(r):
+            from harness.common.lean import BrokenCheck
+            raise BrokenCheck("C13 worker (malformed stream) failed outside the code under test:\n" + r[-1500:])
+        got = r[-300:] if isinstance(r, str) else r["error"]
         if got != expected_cls[kind]:
-            ctx.monitor_fail("malformed", case, got, expected_cls[kind], f"malformed input ({kind}) not rejected as expected",
-                             key={"symptom": "malformed-" + kind})
+            ctx.monitor_fail("malformed", dict(case, malformed=kind), got, expected_cls[kind],
+                             f"malformed input ({kind}) not rejected as expected", key={"symptom": "malformed-" + kind})
         if i is not None:
             ctx.impl_traces += 1
             st, val = a2[i]
@@ -1105,17 +1204,37 @@ def run(ctx):
         ctx.hist("numba-statistics", f"{SHORT[gd['cls']]}:{solver}")
         ctx.monitor_evals += 1
         if isinstance(r, str):
-            ctx.disagree("numba-statistics", key, "runs", r[-400:], "real code raised")
+            if not _raised_in_repo(r):
+                from harness.common.lean import BrokenCheck
+                raise BrokenCheck("C13 worker (numba statistics) failed outside the code under test:\n" + r[-1500:])
+            ctx.monitor_fail("numba-statistics", key, {"raised": r[-600:]}, "a run without exception", f"{solver}/numba: raises",
+                             key={"solver": solver, "backend": "numba", "symptom": "raises"})
             continue
-        # z = increment / sqrt(noise*dt*n/V) must be standard normal: mean(z^2) = 1 +- 6*sqrt(2/N), |mean| <= 6/sqrt(N)
-        tol = 6 * math.sqrt(2 / r["n"])
-        if abs(r["msq"] - 1) > tol or abs(r["mean"]) > 6 / math.sqrt(r["n"]) or r["steps"] != steps:
-            ctx.monitor_fail("numba-statistics", key, r, {"msq": f"1 +- {tol:.3f}", "steps": steps},
+        if not stat_ok(r, steps):
+            ctx.monitor_fail("numba-statistics", key, r, {"msq": f"1 +- {6 * math.sqrt(2 / r['n']):.3f}", "steps": steps},
                              f"{solver}/numba: variance of increments", key={"solver": solver, "backend": "numba", "symptom": "increment-variance"})
+
+    # ---- floor on the coverage: an empty leg is a broken check, not a pass ---------------------------
+    floors = {"local": len(local), "recorded": len(recorded), "exact": len(exact), "numba-source": len(nb_src),
+              "numba-jit": len(nb_jit), "recorded-jit": len(rec_jit), "malformed": len(malformed), "numba-statistics": len(sjobs)}
+    short = {k: (ctx.legs.get(k, 0), n) for k, n in floors.items() if ctx.legs.get(k, 0) < n or n == 0}
+    if not ctx.monitor_failures and (short or ctx.monitor_evals == 0 or ctx.impl_traces == 0):
+        from harness.common.lean import BrokenCheck
+        raise BrokenCheck(f"C13 coverage floor not met: legs (counted, generated) {short}, monitor evaluations "
+                          f"{ctx.monitor_evals}, model comparisons {ctx.impl_traces}")
+
+
+def stat_ok(r, steps):
+    """z = increment / sqrt(noise*dt*n/V) must be standard normal: mean(z^2) = 1 +- 6*sqrt(2/N), |mean| <= 6/sqrt(N)
+    (written so that a NaN fails)"""
+    return bool(abs(r["msq"] - 1) <= 6 * math.sqrt(2 / r["n"]) and abs(r["mean"]) <= 6 / math.sqrt(r["n"])
+                and r["steps"] == steps)
 
 
 def search(ctx, broken):
-    """failing-input search after a broken tie: monitors on the disagreeing cases with 20 steps"""
+    """failing-input search after a broken tie: monitors on the disagreeing cases (as recorded and with 20 steps),
+    in source mode (NUMBA_DISABLE_JIT=1; the flags of compiled cases are dropped so that the case that is written
+    out replays in the mode it was found in)"""
     found = []
     cases = []
     for d in broken:
@@ -1124,7 +1243,8 @@ def search(ctx, broken):
             continue
         for steps in (c["steps"], 20):
             v = dict(c, steps=steps)
-            v.pop("split", None)
+            for k in ("split", "jit", "light", "same_seed"):
+                v.pop(k, None)
             cases.append(v)
         if len(cases) >= 64:
             break
@@ -1132,31 +1252,69 @@ def search(ctx, broken):
         return found
     res = fan_out([("case", c) for c in cases], {"NUMBA_DISABLE_JIT": "1"}, 16)
     for c, r in zip(cases, res):
-        if isinstance(r, str) or "error" in r:
-            continue
-        for m in r["monitor"]:
+        for m in case_failures(r):
             found.append({"leg": "search", "case": c, "observed": m["observed"], "expected": m["expected"],
                           "what": f"{c['solver']}: {m['symptom']}", "key": symptom_key(c, m["symptom"])})
             return found
     return found
 
 
+def case_failures(r):
+    """the failed monitors of one executed case (the result of `real_case` in a worker), a crash included"""
+    if isinstance(r, str):
+        if not _raised_in_repo(r):
+            from harness.common.lean import BrokenCheck
+            raise BrokenCheck("C13 worker failed outside the code under test:\n" + r[-1500:])
+        return [{"symptom": "raises", "observed": {"raised": r[-600:]}, "expected": "a run without exception"}]
+    fails = list(r["monitor"])
+    if "error" in r and not r.get("no_convergence"):
+        fails.append({"symptom": "raises", "observed": {"raised": r["error"]}, "expected": "a run without exception"})
+    return fails
+
+
+def exec_env(case):
+    """the execution mode a case was generated for: compiled (`jit`) or numba source semantics"""
+    return {"NUMBA_DISABLE_JIT": "0" if case.get("jit") else "1"}
+
+
 def replay(ctx, rep):
-    c = rep["case"]
-    if rep.get("leg") == "numba-statistics":
-        r = numba_stat((c["grid"], c["solver"], c["interp"], c["noise"], c["dt"], c["steps"], c["seed"]))
-        print(r)
-        return abs(r["msq"] - 1) <= 6 * math.sqrt(2 / r["n"]) and abs(r["mean"]) <= 6 / math.sqrt(r["n"]) and r["steps"] == c["steps"]
-    if rep.get("leg") == "malformed":
-        r = expect_error(c)
-        print(r, "expected", rep.get("expected"))
-        return r["error"] == rep.get("expected")
-    r = real_case(c)
-    if "error" in r:
-        print("real code raised:", r["error"])
+    """re-run the recorded case in a fresh interpreter in the execution mode it was recorded in (numba-source and
+    numpy cases under NUMBA_DISABLE_JIT=1, compiled cases with the JIT on) and judge the recorded symptom"""
+    from harness.common.isolated import run_one
+
+    c = rep.get("case")
+    leg = rep.get("leg")
+    if not isinstance(c, dict):
+        print("cannot be replayed: the file records no case")
         return False
-    for m in r["monitor"]:
-        print("monitor failed:", m["symptom"], "observed", m["observed"], "expected", m["expected"])
-    if not r["monitor"]:
-        print("all monitors hold (", r["n_monitors"], "evaluated )")
-    return not r["monitor"]
+    if leg == "numba-statistics":
+        need = ("grid", "solver", "interp", "noise", "dt", "steps", "seed")
+        if any(k not in c for k in need):
+            print("cannot be replayed: the recorded statistics job is incomplete")
+            return False
+        r = run_one("harness.c13", "worker", ("stat", tuple(c[k] for k in need)), env={"NUMBA_DISABLE_JIT": "0"})
+        print(r if not isinstance(r, str) else "real code raised:\n" + r[-1200:])
+        return (not isinstance(r, str)) and stat_ok(r, c["steps"])
+    if leg == "malformed":
+        r = run_one("harness.c13", "worker", ("error", c), env={"NUMBA_DISABLE_JIT": "1"})
+        got = r[-300:] if isinstance(r, str) else r["error"]
+        print("outcome:", got, "- expected:", rep.get("expected"))
+        return got == rep.get("expected")
+    if "eq" not in c or "solver" not in c:
+        print("cannot be replayed: not a case of the solver legs")
+        return False
+    r = run_one("harness.c13", "worker", ("case", c), env=exec_env(c))
+    if isinstance(r, str) and not _raised_in_repo(r):
+        print("the replay itself failed (outside the code under test):\n" + r[-1500:])
+        return False
+    fails = case_failures(r)
+    recorded = (rep.get("key") or {}).get("symptom")
+    for m in fails:
+        print("monitor FAILS:", m["symptom"], "observed", str(m["observed"])[:600], "expected", str(m["expected"])[:300])
+    if not fails:
+        print("all monitors hold (", r["n_monitors"], "evaluated, execution mode", r.get("exec"), ")")
+        return True
+    if recorded and recorded not in [m["symptom"] for m in fails]:
+        print(f"note: the recorded symptom ({recorded}) no longer fails, but the property still fails on the recorded "
+              "input with the symptoms above")
+    return False
